@@ -1,4 +1,5 @@
 """C16 -- work-unit-local storage (structural part)."""
+import re
 from abtverif import canon, cfg, seq
 from abtverif.seq import idx, is_call, show, held_at
 from . import common, C03
@@ -21,6 +22,7 @@ RULES_DOC = dict(common.SHARED_DOC)
 RULES_DOC["X4"] = common.X4_DOC
 RULES_DOC["R5"] = "key identities are disjoint: statically initialised (internal) keys have distinct ids below the first dynamic id, and ABT_key_create hands out ids from a counter that starts above them (a user key never aliases the migration / stackable-scheduler key)"
 RULES_DOC["R6"] = "the key-table size cannot be configured to 0: the lower bound of the KEY_TABLE_SIZE loader is at least 1 (a table of zero slots is indexed with id & (0 - 1))"
+RULES_DOC["R7"] = "who-may-write census of ABTI_thread::p_keytable: only the constructors (NULL / initial table), the key-table setters (publication through the slot pointer) and the free path touch it -- a revive keeps the table and its values"
 RULES_DOC.update({
     "R1": "element initialised before its release-store link; acquire-load traversal; table pointer published by release store / reset on failure",
     "R2": "append only after a second scan of the chain under the table lock (thread-safe variant); lock released on every exit",
@@ -337,7 +339,11 @@ def rule_R5(P, rep):
             step = F.nodes[F.strip(rn["a"][1])].get("cv")
             if inner is not None and inner.get("k") == "ref" and inner.get("dk") == "global":
                 ctr = (inner["n"], step, rn["fn"])
-    rep.need(ctr is not None, "ABT_key_create does not take the id from an atomic fetch-add of a global counter")
+    if ctr is None:
+        rep.ob("R5", "ABT_key_create takes the new id from one atomic fetch-add of a global counter", False,
+               "the id is not the result of an atomic fetch-add (two concurrent creations can obtain the same id)",
+               loc="%s:%d" % (F.file, F.line), site="key-ids/atomic")
+        return
     g = [g for (file, name), g in P.globals.items() if name == ctr[0] and file == "src/key.c" and g.get("nodes")]
     rep.need(g, "initialiser of %s not found" % ctr[0])
     start = [n.get("cv") for n in g[0]["nodes"] if n and n.get("k") == "int"]
@@ -358,6 +364,25 @@ def rule_R6(P, rep):
            loc=F.loc(calls[0]), site="key_table_size/lower-bound")
 
 
+def rule_R7(P, rep):
+    writers = set()
+    for F in P.functions.values():
+        for _b, i, lh, rh in F.stores():
+            if F.field_of(lh) == ("ABTI_thread", "p_keytable"):
+                writers.add(F.name)
+        for _b, i in F.calls():
+            nd = F.nodes[i]
+            if (nd.get("fn") or "").startswith("ABTD_atomic_") and ("store" in nd["fn"] or "cas" in nd["fn"]) and nd["a"] and \
+                    F.field_of(nd["a"][0]) == ("ABTI_thread", "p_keytable"):
+                writers.add(F.name)
+    rep.need(len(writers) >= 2, "writers of ABTI_thread::p_keytable: %s" % sorted(writers))
+    for w in sorted(writers):
+        ok = bool(re.search(r"create|_free$|thread_free|init", w)) and "revive" not in w
+        rep.ob("R7", "%s (a constructor or the free path) writes ABTI_thread::p_keytable" % w, ok,
+               "%s overwrites the key table of a live or revived unit (its values and their destructors are lost)" % w,
+               loc="src", site="keytable-writer/" + w)
+
+
 def run(P, rep, tier):
     common.rule_X4(P, rep)
     common.run_shared(P, rep, which=("X1", "X2"))
@@ -366,3 +391,4 @@ def run(P, rep, tier):
     rule_R4(P, rep)
     rule_R5(P, rep)
     rule_R6(P, rep)
+    rule_R7(P, rep)
